@@ -49,6 +49,8 @@ type FuncContract struct {
 	Inline     bool
 	Trusted    bool
 	Timeout    int  // solver seconds for this function's obligations in the quick tier
+	Prune      bool // ask the solver at every fork which branches are feasible
+	Thorough   bool // verified in the thorough tier only (slow obligations)
 	Exact      bool // verify against callee bodies instead of callee contracts
 	Pure       bool // side-effect free and loop free: calls are merged into one outcome
 	Lets       []Clause // Label = name
@@ -263,7 +265,7 @@ func pkgOfFile(P *Program, file string) (short string, path string) {
 
 var clauseWords = map[string]bool{"props": true, "decoder": true, "encoder": true, "inline": true,
 	"trusted": true, "requires": true, "ensures": true, "assigns": true, "let": true, "loop": true,
-	"noterm": true, "ghost": true, "determines": true, "pure": true, "exact": true, "timeout": true}
+	"noterm": true, "ghost": true, "determines": true, "pure": true, "exact": true, "timeout": true, "prune": true, "thorough": true}
 
 func (cs *ContractSet) parseFile(P *Program, file string) error {
 	data, err := os.ReadFile(file)
@@ -446,6 +448,10 @@ func (ct *FuncContract) addClause(w, rest, where string) error {
 		ct.Pure = true
 	case "exact":
 		ct.Exact = true
+	case "prune":
+		ct.Prune = true
+	case "thorough":
+		ct.Thorough = true
 	case "timeout":
 		n, err := strconv.Atoi(strings.TrimSpace(rest))
 		if err != nil {
